@@ -1,8 +1,78 @@
 //go:build verif
 
-// Contracts for the deductive checks in /verif (comment-only). Syntax: /verif/DESIGN.md 2.3.
+// Contracts for the deductive checks in /verif (comment-only; compiled only with -tags verif and
+// even then contains no code). Syntax: /verif/CONTRACTS_GUIDE.md.
 
 package override
+
+// ---------------------------------------------------------------------------------------------
+// Rule tables (C04: which attribute merges how; C02: dispatch is a function of the path).
+// The rows are extracted mechanically from the SSA of the init functions on every run.
+
+//@ table mergeSpecials [C04,C02]
+//@   row "networks.*.ipam.config" mergeIPAMConfig
+//@   row "networks.*.labels" mergeToSequence
+//@   row "volumes.*.labels" mergeToSequence
+//@   row "services.*.annotations" mergeToSequence
+//@   row "services.*.build" mergeBuild
+//@   row "services.*.build.args" mergeToSequence
+//@   row "services.*.build.additional_contexts" mergeToSequence
+//@   row "services.*.build.extra_hosts" mergeExtraHosts
+//@   row "services.*.build.labels" mergeToSequence
+//@   row "services.*.command" override
+//@   row "services.*.depends_on" mergeDependsOn
+//@   row "services.*.deploy.labels" mergeToSequence
+//@   row "services.*.dns" mergeToSequence
+//@   row "services.*.dns_opt" mergeToSequence
+//@   row "services.*.dns_search" mergeToSequence
+//@   row "services.*.entrypoint" override
+//@   row "services.*.env_file" mergeToSequence
+//@   row "services.*.label_file" mergeToSequence
+//@   row "services.*.environment" mergeToSequence
+//@   row "services.*.extra_hosts" mergeExtraHosts
+//@   row "services.*.healthcheck.test" override
+//@   row "services.*.labels" mergeToSequence
+//@   row "services.*.logging" mergeLogging
+//@   row "services.*.networks" mergeNetworks
+//@   row "services.*.sysctls" mergeToSequence
+//@   row "services.*.tmpfs" mergeToSequence
+//@   row "services.*.ulimits.*" mergeUlimit
+//@   exact
+
+//@ table unique [C04,C02]
+//@   row "networks.*.labels" keyValueIndexer
+//@   row "networks.*.ipam.options" keyValueIndexer
+//@   row "services.*.annotations" keyValueIndexer
+//@   row "services.*.build.args" keyValueIndexer
+//@   row "services.*.build.additional_contexts" keyValueIndexer
+//@   row "services.*.build.platform" keyValueIndexer
+//@   row "services.*.build.tags" keyValueIndexer
+//@   row "services.*.build.labels" keyValueIndexer
+//@   row "services.*.cap_add" keyValueIndexer
+//@   row "services.*.cap_drop" keyValueIndexer
+//@   row "services.*.devices" deviceMappingIndexer
+//@   row "services.*.configs" mountIndexer("")
+//@   row "services.*.deploy.labels" keyValueIndexer
+//@   row "services.*.dns" keyValueIndexer
+//@   row "services.*.dns_opt" keyValueIndexer
+//@   row "services.*.dns_search" keyValueIndexer
+//@   row "services.*.environment" keyValueIndexer
+//@   row "services.*.env_file" envFileIndexer
+//@   row "services.*.expose" exposeIndexer
+//@   row "services.*.labels" keyValueIndexer
+//@   row "services.*.links" keyValueIndexer
+//@   row "services.*.networks.*.aliases" keyValueIndexer
+//@   row "services.*.networks.*.link_local_ips" keyValueIndexer
+//@   row "services.*.ports" portIndexer
+//@   row "services.*.profiles" keyValueIndexer
+//@   row "services.*.secrets" mountIndexer("/run/secrets")
+//@   row "services.*.sysctls" keyValueIndexer
+//@   row "services.*.tmpfs" keyValueIndexer
+//@   row "services.*.volumes" volumeIndexer
+//@   exact
+
+// ---------------------------------------------------------------------------------------------
+// merge.go
 
 //@ func override
 //@   nopanic[C01,C04]
@@ -17,6 +87,12 @@ package override
 //@     invariant forall k string :: has(c, k) <==> seen(k)
 //@     invariant forall k string :: seen(k) ==> has(m, k) && c[k] == m[k]
 
+//@ func sameScalar
+//@   nopanic[C01,C04]
+//@   ensures[C04] result ==> a == b
+
+// mergeMappings: scalars replaced, maps merged key by key, everything the override does not
+// mention preserved (C04). Proved for all iteration orders of `other` (C02).
 //@ func mergeMappings
 //@   nopanic[C01,C04]
 //@   requires mapping != nil
@@ -36,11 +112,176 @@ package override
 //@     invariant mapping != other ==> forall k string :: seen(k) ==> has(mapping, k)
 //@     invariant mapping != other ==> forall k string :: seen(k) && (!old(has(mapping, k)) || hasprefix(k, "x-")) ==> mapping[k] == old(other[k])
 
+// mergeYaml: dispatch on the (unique) matching rule; otherwise the generic rules.
 //@ func mergeYaml
 //@   nopanic[C01,C04]
 //@   assigns below(e), below(o)
+//@   ensures[C04] err == nil ==> wf(result)
 //@   ensures[C04] pathmatch(p, "services.*.command") ==> err == nil && result == o
 //@   ensures[C04] pathmatch(p, "services.*.entrypoint") ==> err == nil && result == o
 //@   ensures[C04] pathmatch(p, "services.*.healthcheck.test") ==> err == nil && result == o
+//@   ensures[C04] noRule(p) && o == nil ==> err == nil && result == e
+//@   ensures[C04] noRule(p) && o != nil && isMap(e) && !isMap(o) ==> err != nil
+//@   ensures[C04] noRule(p) && o != nil && isList(e) && !isList(o) ==> err != nil
+//@   ensures[C04] noRule(p) && o != nil && !isMap(e) && !isList(e) ==> err == nil && result == o
+//@   ensures[C04] noRule(p) && o != nil && isList(e) && isList(o) ==> err == nil && isList(result) && len(asList(result)) == len(asList(e)) + len(asList(o))
+//@   ensures[C04] noRule(p) && o != nil && isMap(e) && isMap(o) && err == nil ==> result == e
 //@   loop 1
 //@     invariant[C04] forall k string :: seen(k) ==> !pathmatch(p, k)
+
+//@ spec noRule(p string) bool = forall k string :: has(mergeSpecials, k) ==> !pathmatch(p, k)
+
+//@ func Merge
+//@   nopanic[C01,C04]
+//@   requires right != nil && left != nil
+
+//@ func ExtendService
+//@   nopanic[C01,C04,C05]
+//@   requires base != nil && override != nil
+
+//@ func mergeLogging
+//@   nopanic[C01,C04]
+//@   ensures[C04] err == nil ==> wf(result)
+//@   ensures[C04] !isMap(c) || !isMap(o) ==> err != nil
+
+//@ func mergeBuild
+//@   nopanic[C01,C04]
+//@   ensures[C04] err == nil ==> wf(result)
+//@   ensures[C04] c != nil && !isMap(c) && !isStr(c) ==> err != nil
+
+//@ func mergeBuild$1
+//@   nopanic[C01,C04]
+//@   ensures[C04] isMap(c) ==> result == asMap(c)
+//@   ensures[C04] isStr(c) ==> result != nil && fresh(result) && has(result, "context") && result["context"] == c
+//@   ensures[C04] !isMap(c) && !isStr(c) ==> result == nil
+
+// convertIntoMapping: a short-form list becomes a mapping whose entries are pairwise distinct fresh
+// maps (the any-trees stay unshared: a later merge into one entry cannot leak into a sibling).
+//@ func convertIntoMapping
+//@   nopanic[C01,C04]
+//@   ensures[C04] isMap(a) ==> err == nil && result.0 == asMap(a)
+//@   ensures[C04] isList(a) && err == nil ==> result.0 != nil && fresh(result.0)
+//@   ensures[C04] !isMap(a) && !isList(a) ==> err == nil && result.0 == nil
+//@   ensures[C04] isList(a) && err == nil && defaultValue != nil ==> forall k1 string, k2 string :: has(result.0, k1) && has(result.0, k2) && k1 != k2 ==> isMap(result.0[k1]) && result.0[k1] != result.0[k2]
+//@   ensures[C04] isList(a) && err == nil && defaultValue != nil ==> forall k string :: has(result.0, k) ==> isMap(result.0[k]) && asMap(result.0[k]) != defaultValue && fresh(asMap(result.0[k]))
+//@   loop 1
+//@     invariant converted != nil && fresh(converted)
+//@     invariant defaultValue != nil ==> forall k string :: has(converted, k) ==> wf(converted[k]) && isMap(converted[k]) && fresh(asMap(converted[k])) && asMap(converted[k]) != defaultValue
+//@     invariant defaultValue != nil ==> forall k1 string, k2 string :: has(converted, k1) && has(converted, k2) && k1 != k2 ==> converted[k1] != converted[k2]
+
+//@ func mergeConvertedMappings
+//@   nopanic[C01,C04]
+//@   ensures[C04] err == nil ==> wf(result)
+//@   ensures[C04] right == nil && c != nil ==> err != nil
+
+//@ func mergeDependsOn
+//@   nopanic[C01,C04]
+//@   ensures[C04] err == nil ==> wf(result)
+
+//@ func mergeNetworks
+//@   nopanic[C01,C04]
+//@   ensures[C04] err == nil ==> wf(result)
+
+//@ func mergeUlimit
+//@   nopanic[C01,C04]
+//@   ensures[C04] err == nil ==> wf(result)
+//@   ensures[C04] !isMap(o) ==> err == nil && result == o
+
+//@ func mergeToSequence
+//@   nopanic[C01,C04]
+//@   ensures[C04] err == nil && isList(result) && wf(result)
+
+//@ func mergeExtraHosts
+//@   nopanic[C01,C04]
+//@   ensures[C04] err == nil && isList(result) && wf(result)
+//@   loop 1
+//@     invariant 0 <= i && i <= rangeindex + 1 && rangeindex < len(left)
+
+//@ func convertIntoSequence$1
+//@   nopanic[C01,C04]
+//@   requires isStr(a) && isStr(b)
+
+//@ func convertIntoSequence
+//@   nopanic[C01,C04]
+//@   ensures[C04] isList(value) ==> result == asList(value)
+//@   ensures[C04] isStr(value) ==> len(result) == 1 && result[0] == value
+//@   ensures[C04] !isList(value) && !isStr(value) && !isMap(value) ==> result == nil
+//@   loop 1
+//@     invariant forall j int :: 0 <= j && j < len(seq) ==> isStr(seq[j])
+//@   loop 2
+//@     invariant forall j int :: 0 <= j && j < len(seq) ==> isStr(seq[j])
+
+//@ func mergeIPAMConfig
+//@   nopanic[C01,C04]
+//@   ensures[C04] err == nil ==> wf(result)
+//@   ensures[C04] !isList(c) || !isList(o) ==> err != nil
+
+//@ func mergeIPAMConfig$1
+//@   nopanic[C01,C04]
+
+//@ func mergeIPAMConfig$2
+//@   nopanic[C01,C04]
+
+// ---------------------------------------------------------------------------------------------
+// uncity.go
+
+//@ func EnforceUnicity
+//@   nopanic[C01,C04]
+//@   requires value != nil
+
+// enforceUnicity: one entry per key; the entry stays at the position of the first occurrence of its
+// key and carries the value of the last (later file wins).
+//@ func enforceUnicity
+//@   nopanic[C01,C04]
+//@   assigns below(value)
+//@   ensures[C04] err == nil ==> wf(result)
+//@   ensures[C04] !isMap(value) && !isList(value) ==> err == nil && result == value
+//@   ensures[C04] isMap(value) && err == nil ==> result == value
+//@   loop 2
+//@     invariant[C04] forall k string :: seen(k) ==> !pathmatch(p, k)
+//@   loop 3
+//@     invariant[C04] -1 <= rangeindex && rangeindex < len(v) && len(seq) <= rangeindex + 1
+//@     invariant[C04] keys != nil && forall key string :: has(keys, key) ==> 0 <= keys[key] && keys[key] < len(seq)
+
+//@ func keyValueIndexer
+//@   nopanic[C01,C04]
+//@   ensures[C04] !isStr(v) ==> err != nil
+//@   ensures[C04] isStr(v) && contains(asStr(v), "=") ==> err == nil && result.0 == asStr(v)[0:sindex(asStr(v), "=")]
+//@   ensures[C04] isStr(v) && !contains(asStr(v), "=") ==> err == nil && result.0 == asStr(v)
+
+//@ func volumeIndexer
+//@   nopanic[C01,C04]
+//@   ensures[C04] isMap(y) && has(asMap(y), "target") && isStr(asMap(y)["target"]) ==> err == nil && result.0 == asStr(asMap(y)["target"])
+//@   ensures[C04] isMap(y) && !(has(asMap(y), "target") && isStr(asMap(y)["target"])) ==> err != nil
+
+//@ func deviceMappingIndexer
+//@   nopanic[C01,C04]
+//@   ensures[C04] isMap(y) && has(asMap(y), "target") && isStr(asMap(y)["target"]) ==> err == nil && result.0 == asStr(asMap(y)["target"])
+//@   ensures[C04] isMap(y) && !(has(asMap(y), "target") && isStr(asMap(y)["target"])) ==> err != nil
+//@   ensures[C04] isStr(y) && splitcount(asStr(y), ":") == 1 ==> err == nil && result.0 == splitpart(asStr(y), ":", 0)
+//@   ensures[C04] isStr(y) && splitcount(asStr(y), ":") > 1 ==> err == nil && result.0 == splitpart(asStr(y), ":", 1)
+
+//@ func exposeIndexer
+//@   nopanic[C01,C04]
+//@   ensures[C04] isStr(a) ==> err == nil && result.0 == asStr(a)
+//@   ensures[C04] !isStr(a) && !isInt(a) ==> err != nil
+
+//@ func mountIndexer
+//@   nopanic[C01,C04]
+
+//@ func mountIndexer$1
+//@   nopanic[C01,C04]
+//@   ensures[C04] isMap(a) && has(asMap(a), "target") && isStr(asMap(a)["target"]) ==> err == nil && result.0 == asStr(asMap(a)["target"])
+//@   ensures[C04] isMap(a) && has(asMap(a), "target") && !isStr(asMap(a)["target"]) ==> err != nil
+//@   ensures[C04] !isMap(a) && !isStr(a) ==> err != nil
+
+//@ func portIndexer
+//@   nopanic[C01,C04]
+//@   ensures[C04] isStr(y) ==> err == nil && result.0 == asStr(y)
+//@   ensures[C04] isMap(y) && !has(asMap(y), "target") ==> err != nil
+
+//@ func envFileIndexer
+//@   nopanic[C01,C04]
+//@   ensures[C04] isStr(y) ==> err == nil && result.0 == asStr(y)
+//@   ensures[C04] isMap(y) && has(asMap(y), "path") && isStr(asMap(y)["path"]) ==> err == nil && result.0 == asStr(asMap(y)["path"])
+//@   ensures[C04] isMap(y) && !(has(asMap(y), "path") && isStr(asMap(y)["path"])) ==> err != nil
